@@ -80,7 +80,7 @@ def check_case(case):
     sctx = sched.SchedCtx(env, prog)
     prep = []
     for step in case["prep"]:
-        q, outcome, desc = sched.apply_step(p1, step, sctx)
+        q, outcome, desc = sched.apply_step_excl(PROP, p1, step, sctx)
         if outcome == "accepted":
             p1 = q
             prep.append(desc["op"])
@@ -114,7 +114,7 @@ def check_case(case):
         raise Skip("no-block")
     # mostly the exact position of the former call, sometimes a neighbour
     exact = [s for s in cands if s.path == site.path]
-    start = exact[0] if exact and case["blk"] % 4 != 3 else cands[case["blk"] % len(cands)]
+    start = exact[0] if exact and case["blk"] % 4 != 3 else cands[(case["blk"] // 4 + case["blk"]) % len(cands)]
     blen = [nbody, nbody, 1, 2, nbody + 1, 3][case["blen"] % 6]
     blen = max(1, min(blen, start.nsib - start.pos))
     blk = sched.cursor_at(p1, start.path).expand(0, blen - 1)
@@ -209,4 +209,22 @@ def case_strategy():
 def run(ctx):
     global CTX
     CTX = ctx
+    from ..common import run_systematic
+    from ..gen.templates import TEMPLATES
+
+    def sys_cases():
+        val = {"fill": 1, "layout": 2, "cfg": [3, 5, 1, 2, 4], "pick": 7}
+        for t in TEMPLATES:
+            for tk in (0, 1, 2):
+                prog = t(tk)
+                if not prog["callees"]:
+                    continue
+                for call in range(2):
+                    for mode in (0, 2):
+                        for blk in range(8):
+                            for blen in range(6):
+                                for k1, k2 in ((0, 0), (1, 1), (2, 3), (3, 2)) if mode == 2 else ((0, 0),):
+                                    yield {"prog": prog, "call": call, "prep": [], "mode": mode, "k1": k1, "k2": k2, "blk": blk, "blen": blen, "val": val}
+
+    run_systematic(ctx, sys_cases(), guarded(ctx, check_case), keep_one_in=2 if ctx.tier == "quick" else 1, label="template-blocks")
     run_cases(ctx, case_strategy(), guarded(ctx, check_case), ctx.budget(3000, 100000))
